@@ -81,7 +81,7 @@ EXTRA = {
  "C14": " Also: nothing writes the HMAC key buffer that scryptauth.New retains (retention read from the dependency's SSA; whole-buffer copies followed); scrypt Generate as Gen or as fresh-salt + Hash; the KDF's password operand is unwritten when the KDF runs.",
  "C01": " Also: the byte copy of the password handed to a KDF is unwritten when the KDF runs.",
  "C15": " Also: a succeeding exit is reached only after the rename and nothing unlinks the final name after it.",
- "C18": " Also: no type below the decoded configuration root re-decodes itself through yaml.Node.Decode (which drops KnownFields) and there is no inline map.",
+ "C18": " Also: no type below the decoded configuration root re-decodes itself through yaml.Node.Decode (which drops KnownFields) and there is no inline map; integer divisions on the loader path have divisors known non-zero.",
  "C20": " Also: loop progress — every iteration of the transfer loops that goes round again has transferred a non-zero count (found and repaired: F11, spin on a stale errno after an early close).",
 }
 
